@@ -358,8 +358,19 @@ def run_impl(case, tag, hash_ws=False):
     model = {"root": root, "shell": batch.get("shell", "/bin/bash"), "env": env_ops,
              "params": m_params, "steps": m_steps, "order": None}
 
-    study = Study(spec.name, spec.description, studyenv=environment,
-                  parameters=parameters, steps=steps, out_path=root)
+    try:
+        study = Study(spec.name, spec.description, studyenv=environment,
+                      parameters=parameters, steps=steps, out_path=root)
+    except Exception as e:
+        # add_step applies the environment: a substitution that raises is the
+        # observable "Raised"; the order comes from an environment-free build
+        from maestrowf.datastructures.core import StudyEnvironment
+        bare = Study(spec.name, spec.description, studyenv=StudyEnvironment(),
+                     parameters=parameters, steps=spec.get_study_steps(), out_path=root)
+        names = [st["name"] for st in m_steps]
+        model["order"] = [names.index(n) for n in bare.topological_sort() if n != SOURCE]
+        model["exc"] = "Study(): %s: %s" % (type(e).__name__, str(e)[:200])
+        return model, "Raised"
     study.setup_workspace()
     study.configure_study(throttle=0, submission_attempts=1, restart_limit=1,
                           use_tmp=False, hash_ws=hash_ws, dry_run=True)
@@ -496,7 +507,9 @@ def gen_case(rng, exotic=None, shape=None, api=False):
             variables[n] = "$(%s)/%s" % (rng.choice(plain_vars), rng.choice(["sub", "d1", "x y"]))
         else:
             v = rng.choice(["/usr/local/bin", "data", "4", "00:10:00", "my code", "v1.2", "résumé",
-                            "a/b/c", 3, 16, 2.5, "x"])
+                            "a/b/c", 3, 16, 2.5, "x",
+                            # backslash sequences: a value is data, never a regex template
+                            "a\\nb", "t\\tab", "C:\\\\dir", "\\1st", "pre\\g<0>post", "x\\"])
             variables[n] = v
             plain_vars.append(n)
     if rng.random() < 0.3 and (shape is None or shape[0]):
@@ -924,6 +937,120 @@ def _depth(v):
     return 0
 
 
+LAUNCHER = os.path.join(common.VERIF, "harness", "e2e_launcher.py")
+
+
+def gen_cli_case(rng, k):
+    """A generated study that the YAML route can express, with OUTPUT_PATH and
+    SPECROOT used directly in cmd / restart and through a variable and a label
+    whose values mention them; run through the literal command line."""
+    for _ in range(50):
+        c = gen_case(rng)
+        if not needs_pgen(c):
+            break
+    else:
+        c["params"] = []
+    c["stream"] = "cli"
+    c["cli"] = {"out": k % 3 != 2, "spec_output_path": k % 2 == 0}
+    v = OrderedDict()
+    v["BASE0"] = "data"                       # a plain variable first: what follows with "$" is a label
+    for n, val in c["variables"].items():
+        if n != "OUTPUT_PATH":
+            v[n] = val
+    if c["cli"]["spec_output_path"]:
+        v["OUTPUT_PATH"] = "./outs"
+    v["RESULTS"] = "$(OUTPUT_PATH)/results"   # variable whose value mentions OUTPUT_PATH (-> label)
+    c["variables"] = v
+    c["labels"]["INDIR"] = "$(SPECROOT)/inputs/$(BASE0)"
+    st = rng.choice(c["steps"])
+    st["run"]["cmd"] += " --out=$(OUTPUT_PATH)/a.txt --in $(SPECROOT)/b.txt $(RESULTS) $(INDIR)"
+    st["run"]["restart"] = (st["run"].get("restart", "") + " resume $(RESULTS)/r $(OUTPUT_PATH):$(SPECROOT) $(INDIR)").strip()
+    return c
+
+
+def cli_one(case, tag):
+    """(model, observable) of `maestro run -y -fg --dry [-o OUT] spec.yaml` in a
+    sub-process; the scripts are the ones found on the pickled graph of the
+    output directory.  The model is the one of the in-process build with
+    OUTPUT_PATH |-> the actual output directory and SPECROOT |-> the spec's
+    directory (what run_study is documented to add)."""
+    import copy
+    import subprocess
+    import yaml
+    base = os.path.join(_work("cli"), tag)
+    shutil.rmtree(base, ignore_errors=True)
+    specdir = os.path.join(base, "spec")
+    cwd = os.path.join(base, "cwd")
+    os.makedirs(specdir)
+    os.makedirs(cwd)
+    try:
+        model, _ = run_impl(case, "cli-" + tag)
+        if model is None or model.get("order") is None:
+            return None, "EXC:model"
+        text = yaml.dump(_plain(spec_dict(case)), sort_keys=False, allow_unicode=True, width=10 ** 6)
+        spec_path = os.path.join(specdir, "spec.yaml")
+        with open(spec_path, "w", encoding="utf-8") as f:
+            f.write(text)
+        argv = ["/venv/bin/python", LAUNCHER, "maestro", "run", "-y", "-fg", "--dry"]
+        out = None
+        if case["cli"]["out"]:
+            out = os.path.join(base, "OUT dir")
+            argv += ["-o", out]
+        argv.append(spec_path)
+        env = dict(os.environ, PYTHONPATH=common.REPO + os.pathsep + common.VERIF, E2E_MAX_POLLS="200")
+        p = subprocess.run(argv, cwd=cwd, env=env, stdout=subprocess.PIPE, stderr=subprocess.STDOUT,
+                           timeout=300, text=True, errors="replace")
+        if out is None:
+            # the timestamped default directory: below the spec's OUTPUT_PATH
+            # (relative to the cwd) or the cwd itself
+            parent = os.path.join(cwd, "outs") if case["cli"]["spec_output_path"] else cwd
+            found = [d for d in (os.listdir(parent) if os.path.isdir(parent) else [])
+                     if d.startswith("c09_study_") and os.path.isdir(os.path.join(parent, d))]
+            if len(found) != 1:
+                return model, "EXC:no unique output directory (rc %s): %s" % (p.returncode, p.stdout[-300:])
+            out = os.path.join(parent, found[0])
+        pk = [f for f in (os.listdir(out) if os.path.isdir(out) else [])
+              if f.endswith(".pkl") and not f.endswith(".study.pkl")]
+        old_root = model["root"]
+        model["root"] = out
+        for op in model["env"]:
+            if op[0] == "var" and op[1] == "OUTPUT_PATH" and op[2] == old_root:
+                op[2] = out
+            if op[0] == "var" and op[1] == "SPECROOT":
+                op[2] = specdir
+        if not pk:
+            if p.returncode != 0:
+                model["exc"] = "maestro run exited %s: %s" % (p.returncode, p.stdout[-300:])
+                return model, "Raised"
+            return model, "EXC:no graph pickle: " + p.stdout[-300:]
+        from maestrowf.datastructures.core import ExecutionGraph
+        dag = ExecutionGraph.unpickle(os.path.join(out, pk[0]))
+        obs = []
+        for name, rec in dag.values.items():
+            if name == SOURCE:
+                continue
+            with open(rec.script, encoding="utf-8") as f:
+                script = f.read()
+            rscript = None
+            if rec.restart_script:
+                with open(rec.restart_script, encoding="utf-8") as f:
+                    rscript = f.read()
+            obs.append({"name": name, "description": rec.step.description,
+                        "run": copy.deepcopy(rec.step.run), "script": script, "rscript": rscript})
+        return model, obs
+    except Exception as e:
+        return None, "EXC:%s:%s" % (type(e).__name__, str(e)[:300])
+    finally:
+        shutil.rmtree(base, ignore_errors=True)
+
+
+def cli_rows(ck, cases, tag):
+    from concurrent.futures import ThreadPoolExecutor
+    with ThreadPoolExecutor(max_workers=common.NCPU) as ex:
+        res = list(ex.map(lambda kc: cli_one(kc[1], "%s%d" % (tag, kc[0])), enumerate(cases)))
+    return [{"case": c, "model": m, "obs": o} for c, (m, o) in zip(cases, res)]
+
+
 # ----------------------------------------------------------------------------
 # Decoding Coq's answer (debug output for replay files)
 # ----------------------------------------------------------------------------
@@ -1054,8 +1181,11 @@ def evaluate(ck, cases, tag, shard):
     dicts {case, model, obs, flags...}."""
     rows = []
     for k, c in enumerate(cases):
+        if c.get("cli"):
+            continue
         model, obs = observe(c, "%s-%d" % (tag, k))
         rows.append({"case": c, "model": model, "obs": obs})
+    rows += cli_rows(ck, [c for c in cases if c.get("cli")], tag + "c")
     ok_rows = [r for r in rows if r["model"] is not None and r["model"]["order"] is not None
                and not (isinstance(r["obs"], str) and r["obs"].startswith("EXC:"))]
     lits = ["(%s, %s)" % (g_case(r["model"]), g_obs(r["obs"])) for r in ok_rows]
@@ -1108,8 +1238,8 @@ def classify(ck, rows, errs, dist):
         if r["model"] is None or (isinstance(r["obs"], str) and r["obs"].startswith("EXC:")):
             # the study could not be constructed by run_study's own steps
             dist["construct_failed"] += 1
-            if stream == "valid":
-                ck.mismatch("valid-stream case could not be constructed: %s" % r["obs"], _case_json(c))
+            if stream in ("valid", "cli"):
+                ck.mismatch("%s-stream case could not be run: %s" % (stream, r["obs"]), _case_json(c))
             ck.count(json.dumps(_case_json(c), sort_keys=True, default=str), nontrivial=False)
             continue
         obs = r["obs"]
@@ -1117,6 +1247,9 @@ def classify(ck, rows, errs, dist):
         dist["instances:%s" % ("raised" if obs == "Raised" else min(ninst, 12))] += 1
         dist["hyg:%s" % r.get("hyg")] += 1
         dist["hyg:%s:%s" % (stream.split(":")[0], r.get("hyg"))] += 1
+        if c.get("cli"):
+            dist["cli:%s:%s" % ("-o" if c["cli"]["out"] else "default_dir",
+                                "spec_has_OUTPUT_PATH" if c["cli"]["spec_output_path"] else "no_OUTPUT_PATH")] += 1
         if c.get("pgen_ops"):
             dist["pgen_sequence:" + c.get("seq", "?")] += 1
         if c.get("hash_ws"):
@@ -1193,6 +1326,8 @@ def run(ck):
     dist = Counter()
     corpus = load_corpus()
     cases = corpus + generate(rng, n_valid, n_exotic)
+    rng_cli = random.Random(ck.seed * 104729 + 17)
+    cases += [gen_cli_case(rng_cli, k) for k in range(12 if quick else 200)]
     rows, errs = evaluate(ck, cases, "", shard=(12 if quick else 100))
     marks["stage_stream_s"] = round(time.time() - t0, 1)
     classify(ck, rows, errs, dist)
@@ -1218,6 +1353,11 @@ def run(ck):
                       "one the hash_ws=False run records for the same instance -- implementation to implementation for "
                       "the directory names -- then C09_ok is evaluated as usual; a reference that is not exactly a "
                       "recorded workspace stays un-renamed and fails), "
+                      "a CLI stream (generated studies using $(OUTPUT_PATH) / $(SPECROOT) directly and through a variable "
+                      "and a label, written as YAML and run through the literal `maestro run -y -fg --dry [-o OUT]` in a "
+                      "sub-process; scripts read back from the pickled graph of the output directory, judged by the same "
+                      "C09_ok against the model with OUTPUT_PATH |-> the actual output directory, SPECROOT |-> the spec's "
+                      "directory), "
                       "an exotic stream (%s) and a small-scope stream for the core law against Python's own "
                       "str.replace; a case is distinct by its JSON, non-trivial when it stages and carries tokens" %
                       ", ".join(EXOTICS))
@@ -1262,7 +1402,7 @@ def replay(ck, path):
     if not isinstance(c, dict) or "steps" not in c:
         print("replay file holds no specification case:", json.dumps(d, default=str)[:2000])
         return 1
-    model, obs = observe(c, "replay")
+    model, obs = cli_one(c, "replay") if c.get("cli") else observe(c, "replay")
     print("case:", json.dumps(_case_json(c), default=str, ensure_ascii=False))
     print("implementation:", json.dumps(obs, default=str, ensure_ascii=False)[:8000])
     if model is None or model.get("order") is None:
